@@ -55,3 +55,17 @@ val run :
 val init : (coq_Z -> coq_Z) -> coq_Z -> coq_Z list -> sim
 
 val arch_of : sim -> arch
+
+type symtab = (string * coq_Z) list
+
+val lookup_scan : symtab -> coq_Z -> string option
+
+val lookup_symbol : symtab -> coq_Z -> string option
+
+val map_offset : symtab -> string -> coq_Z -> coq_Z
+
+val trace_symbol : symtab -> coq_Z -> (string * coq_Z) option
+
+val trace_prefix :
+  symtab -> sim -> (((coq_Z * coq_Z) * (string * coq_Z)
+  option) * coq_Z) * coq_Z
